@@ -50,10 +50,16 @@ def derive_seed(seed, *parts):
 _num = re.compile(r"0x[0-9a-fA-F]+|\b\d+\b")
 _quoted = re.compile(r"'[^']*'|\"[^\"]*\"")
 _hexrun = re.compile(r"\b[0-9a-fA-F]{8,}\b")
+_enumrepr = re.compile(r"<\w+\.\w+: [^>]*>")
+_enumname = re.compile(r"\b[A-Z]\w*\.[A-Z][A-Z_0-9a-z]*\b")
+_brlist = re.compile(r"\[[^\]]*\]")
 
 
 def norm_msg(msg, keep_quotes=False):
-    msg = str(msg).split("\n")[0][:160]
+    msg = str(msg).split("\n")[0][:200]
+    msg = _enumrepr.sub("E", msg)
+    msg = _enumname.sub("E", msg)
+    msg = _brlist.sub("[..]", msg)
     msg = _hexrun.sub("H", msg)
     if not keep_quotes:
         msg = _quoted.sub("Q", msg)
